@@ -231,3 +231,6 @@ def run(rep, program: Program, tier: str) -> None:
     rep.isolate(rule_r5, rep, program)
     # a derivative that updates a cached array in place is wrong from its second evaluation on (shared with C09-R9)
     rep.isolate(c09.rule_r9, rep, program, prop=PROP, rule="R6")
+    # a value memoised on a state belongs to the system object that computed it: two systems of one class
+    # (different metric / model functions) evaluated on the same state must not read each other's values (shared with C09-R6)
+    rep.isolate(c09.rule_r6, rep, program, prop=PROP, rule="R7")
